@@ -79,7 +79,21 @@ def make_case(rng, b, fam, orient):
     pos_all = np.concatenate([np.array(pos_f), pos_o], axis=1)[:, order, :]
     species_all = [species_all[i] for i in order]
     coords = pos_all / N + rng.integers(-1, 2, size=pos_all.shape)
-    traj = Trajectory(species=[Species(s) for s in species_all], coords=coords, lattice=lattice, time_step=1e-15,
+    # one chemical element may be present as several distinct species objects (mixed valence, Element next to Species): atoms are
+    # grouped by element SYMBOL
+    from pymatgen.core import Element
+    deco = int(rng.integers(0, 4))
+    ox = {'Li': [1, 0], 'O': [-2, -1], 'S': [-2, 4]}
+
+    def mk(sym, i):
+        if deco == 0:
+            return Species(sym)
+        if deco == 1:
+            return Element(sym)
+        if deco == 2:
+            return Species(sym, ox[sym][i % 2])
+        return Element(sym) if i % 2 else Species(sym, ox[sym][0])
+    traj = Trajectory(species=[mk(s, i) for i, s in enumerate(species_all)], coords=coords, lattice=lattice, time_step=1e-15,
                       metadata={'temperature': 300.0})
     structure = Structure(lattice=lattice, species=['Li'] * S, coords=np.array(sites) / N, labels=labels)
     # all attainable squared distances
@@ -144,7 +158,8 @@ def make_case(rng, b, fam, orient):
         recs.append({'b': b, 'act': 'States', 'G': G, 'N': N, 'R': R, 'pos': pos_all.tolist(), 'F': F,
                      'hist': hist_of(tr.states, tr.inner_states), 'labels': [lab_code[x] for x in labels],
                      'symbols': [[code[s], [i + 1 for i, q in enumerate(species_all) if q == s]] for s in syms], 'thr': thr, 'rdfs': rdfs,
-                     'meta': {'family': fam, 'orientation': orient, 'res': res, 'max_dist': max_dist, 'labels': labels, 'states': sorted(rd)}})
+                     'meta': {'family': fam, 'orientation': orient, 'res': res, 'max_dist': max_dist, 'labels': labels, 'states': sorted(rd),
+                              'species_objects': ['Species', 'Element', 'mixed valence', 'Element and Species mixed'][deco]}})
     return recs
 
 
